@@ -266,7 +266,7 @@ fn kx_arc_try_into_mut_unique() {
             kani::cover!(g.off > 0 && g.len > 0);
             drop(m); // the allocation goes back through Vec with (buf, cap): Kani checks the layout
         }
-        Err(_) => assert!(false),
+        Err(e) => { core::mem::forget(e); assert!(false); }
     }
 }
 
@@ -280,7 +280,7 @@ fn kx_arc_try_into_mut_shared() {
     let (b, g) = any_shared_on(buf, cap, any_arc_vtable(), 2);
     let r = b.try_into_mut();
     match r {
-        Ok(_) => assert!(false),
+        Ok(m) => { core::mem::forget(m); assert!(false); }
         Err(b2) => {
             assert!(wf_arc(&b2, &g, g.buf as usize + g.off, g.len) && refcnt(&g) == g.k);
             core::mem::forget(b2);
